@@ -263,7 +263,8 @@ Fixpoint wlog_shape (off : Z) (l : list wop) : list (Z * Z) :=
 Definition file_wlog (f : ofile) : list wop :=
   match f with
   | OFile _ fl ml vl parts _ =>
-      write_log (zeros (fl - 8)) (zeros (ml - 8)) (map mk_part parts) (fl + 8) (zeros vl)
+      (* writeDuration seeks to the payload of the mvhd box (moov header + mvhd header skipped) and marshals it *)
+      write_log (zeros (fl - 8)) (zeros (ml - 8)) (map mk_part parts) (fl + 16) (zeros (vl - 8))
   end.
 Definition writes_of (ops : list (Z * Z * Z)) : list (Z * Z) :=
   flat_map (fun o => match o with (k, a, b) => if k =? 1 then [(a, b)] else [] end) ops.
